@@ -23,7 +23,7 @@ var endCauses = []string{"close", "fin", "rst", "srvcancel"}
 
 func genC15(r *simrt.RNG, tier string, variant int) Plan {
 	p := Plan{Family: "faulty", Params: map[string]int64{}}
-	floodP := 0.0012 // one such run costs as much as a thousand ordinary ones
+	floodP := 0.002 // one such run costs as much as a thousand ordinary ones
 	if tier == "thorough" {
 		floodP = 0.004
 	}
